@@ -627,7 +627,40 @@ func (pa *PanicAudit) indexNeeds(x, idx ssa.Value) (string, []pNeed) {
 	if k, ok := constInt(idx); ok {
 		return "index", []pNeed{{Kind: "len>", Key: pkey(x), K: k}}
 	}
+	// a counter that starts at len(x)-k (k >= 1) and only decreases stays below len(x)
+	if phi, ok := idx.(*ssa.Phi); ok && descendsFromLen(phi, x) {
+		return "", nil
+	}
 	return "index", []pNeed{{Kind: "idx<len", Key: pkey(x), Idx: pkey(idx)}}
+}
+
+// descendsFromLen: every edge of the φ is len(x)-k with k >= 1, or the φ itself minus a positive constant.
+func descendsFromLen(phi *ssa.Phi, x ssa.Value) bool {
+	if len(phi.Edges) == 0 {
+		return false
+	}
+	for _, e := range phi.Edges {
+		b, ok := e.(*ssa.BinOp)
+		if !ok {
+			return false
+		}
+		k, okc := constInt(b.Y)
+		switch {
+		case b.Op == token.SUB && okc && k >= 1:
+			if b.X == ssa.Value(phi) {
+				continue // i - k
+			}
+			if la, ok := lenArg(b.X); ok && pkey(la) == pkey(x) {
+				continue // len(x) - k
+			}
+			return false
+		case b.Op == token.ADD && okc && k <= -1 && b.X == ssa.Value(phi):
+			continue
+		default:
+			return false
+		}
+	}
+	return true
 }
 
 var fieldSuffixRe = regexp.MustCompile(`^(\.[A-Za-z_][A-Za-z0-9_]*)*$`)
@@ -1032,6 +1065,12 @@ func (pa *PanicAudit) analyse(f *ssa.Function) (changed bool) {
 				continue
 			}
 			ok := facts.holds(n)
+			if !ok && n.Kind == "len>" {
+				// a slice that a loop only shortens while it is longer than m keeps a known minimum length
+				if lb, okInv := shrinkInvariant(in, facts); okInv && lb > n.K {
+					ok = true
+				}
+			}
 			if !ok && n.Kind == "len>" && n.K == 0 && treeValueKey(n.Key) && strings.HasSuffix(n.Key, ".Update") {
 				ok = true
 				pa.treeInvUsed(fnName(f))
@@ -1442,4 +1481,75 @@ func literalElems(v ssa.Value) ([]ssa.Value, bool) {
 		}
 	}
 	return out, len(out) > 0
+}
+
+// shrinkInvariant: the indexed operand of in is a loop-carried slice s = φ(init, s[c:]) whose
+// shortening step runs only under len(s) > m (the test at the φ's block).  Then on every
+// iteration len(s) >= min(len(init), m+1-c); len(init) is taken from the facts of the path.
+func shrinkInvariant(in ssa.Instruction, facts *pFacts) (int64, bool) {
+	var x ssa.Value
+	switch v := in.(type) {
+	case *ssa.IndexAddr:
+		x = v.X
+	case *ssa.Index:
+		x = v.X
+	case *ssa.Slice:
+		x = v.X
+	default:
+		return 0, false
+	}
+	phi, ok := x.(*ssa.Phi)
+	if !ok || len(phi.Edges) != 2 {
+		return 0, false
+	}
+	var init ssa.Value
+	var step *ssa.Slice
+	for _, e := range phi.Edges {
+		if sl, ok := e.(*ssa.Slice); ok && sl.X == ssa.Value(phi) && sl.High == nil && sl.Low != nil {
+			step = sl
+		} else {
+			init = e
+		}
+	}
+	if init == nil || step == nil {
+		return 0, false
+	}
+	c, okc := constInt(step.Low)
+	if !okc || c < 0 {
+		return 0, false
+	}
+	// the test at the φ's block: len(φ) > m (true edge leads to the step)
+	hb := phi.Block()
+	ifi, ok := hb.Instrs[len(hb.Instrs)-1].(*ssa.If)
+	if !ok {
+		return 0, false
+	}
+	cond, ok := ifi.Cond.(*ssa.BinOp)
+	if !ok {
+		return 0, false
+	}
+	la, okl := lenArg(cond.X)
+	m, okm := constInt(cond.Y)
+	if !okl || !okm || la != ssa.Value(phi) {
+		return 0, false
+	}
+	switch cond.Op {
+	case token.GTR:
+	case token.GEQ:
+		m--
+	default:
+		return 0, false
+	}
+	if !(hb.Succs[0] == step.Block() || hb.Succs[0].Dominates(step.Block())) {
+		return 0, false
+	}
+	lo, ok := facts.lenLo[pkey(init)]
+	if !ok {
+		return 0, false
+	}
+	after := m + 1 - c
+	if lo < after {
+		return lo, true
+	}
+	return after, true
 }
